@@ -1,12 +1,180 @@
-(* Proofs about the pseudo-version model: the regular expression source, sanity examples. *)
+(* Pseudo-versions: shape of the constructed string, validity, round trip, ordering. *)
 From Verif.Base Require Import Bytes.
-From Verif.Gen Require Import GenRegex.
-From Verif.Semver Require Import Model.
-From Verif.Module Require Import Pseudo.
+From Verif.Semver Require Import Model Spec ProofsStr ProofsParse.
+From Verif.Module Require Import Pseudo PseudoProofsStr PseudoProofsDec PseudoProofsRe.
 
-(* The recogniser Pseudo.pseudo_re_match was written for exactly this source; a change of
-   module/pseudo.go's expression changes Gen/GenRegex.v and breaks this example. *)
-Example pseudo_re_source :
-  module_pseudoVersionRE =
-  B "^v[0-9]+\.(0\.0-|\d+\.\d+-([^+]*\.)?0\.)\d{14}-[A-Za-z0-9]+(\+[0-9A-Za-z-]+(\.[0-9A-Za-z-]+)*)?$".
-Proof. reflexivity. Qed.
+(* a full version string from its fields *)
+Definition mk (M m pt pre b : str) : str := 118 :: M ++ 46 :: m ++ 46 :: pt ++ pre ++ b.
+
+(* the hypotheses of the property *)
+Definition major_ok (major : str) : Prop :=
+  major = [] \/ exists M, major = 118 :: M /\ numeral M = true.
+
+Lemma parse_mk M m pt pre b :
+  numeral M = true -> numeral m = true -> numeral pt = true -> pre_str pre -> build_str b ->
+  parse (mk M m pt pre b) = Some (mkParsed M m pt [] pre b).
+Proof. intros. apply parse_complete. now constructor. Qed.
+
+Lemma parse_fields v p :
+  parse v = Some p ->
+  numeral (p_major p) = true /\ numeral (p_minor p) = true /\ numeral (p_patch p) = true /\
+  pre_str (p_prerelease p) /\ build_str (p_build p).
+Proof.
+  intros H. apply parse_sound in H.
+  destruct H; cbn [p_major p_minor p_patch p_prerelease p_build];
+    repeat split; auto; try reflexivity; now left.
+Qed.
+
+Lemma canonical_mk v p :
+  parse v = Some p ->
+  canonical v = mk (p_major p) (p_minor p) (p_patch p) (p_prerelease p) [].
+Proof. intros H. rewrite (canonical_parts v p H). unfold mk. now rewrite app_nil_r. Qed.
+
+Lemma parse_canonical v p :
+  parse v = Some p ->
+  parse (canonical v) = Some (mkParsed (p_major p) (p_minor p) (p_patch p) [] (p_prerelease p) []).
+Proof.
+  intros H. rewrite (canonical_mk v p H).
+  destruct (parse_fields v p H) as (HM & Hm & Hp & Hpre & _).
+  apply parse_mk; auto. now left.
+Qed.
+
+(* ---- the segment yyyymmddhhmmss-rev as a prerelease identifier ---------------------------- *)
+
+Lemma digit_ident c : is_digit c = true -> ident_char c = true.
+Proof. intros H. unfold ident_char. now rewrite H. Qed.
+
+Lemma alnum_ident c : is_alnum c = true -> ident_char c = true.
+Proof. intros H. unfold ident_char. unfold is_alnum in H. now rewrite H. Qed.
+
+Lemma seg_chars ts rv : ts14 ts -> rev_ok rv -> forallb ident_char (ts ++ 45 :: rv) = true.
+Proof.
+  intros [_ Hd] [_ Hr]. rewrite forallb_app. cbn [forallb].
+  rewrite (forallb_impl _ _ _ digit_ident Hd), (forallb_impl _ _ _ alnum_ident Hr). reflexivity.
+Qed.
+
+Lemma seg_pre_ident ts rv : ts14 ts -> rev_ok rv -> pre_ident (ts ++ 45 :: rv) = true.
+Proof.
+  intros Hts Hrv. unfold pre_ident. rewrite (seg_chars ts rv Hts Hrv).
+  replace (Spec.is_nil (ts ++ 45 :: rv)) with false by (now destruct ts).
+  unfold all_digits. rewrite forallb_app. cbn [forallb].
+  replace (is_digit 45) with false by reflexivity. cbn [andb]. now rewrite andb_false_r.
+Qed.
+
+Lemma seg_no_dot ts rv : ts14 ts -> rev_ok rv -> no_sep 46 (ts ++ 45 :: rv) = true.
+Proof. intros Hts Hrv. apply ident_chars_no_dot. now apply seg_chars. Qed.
+
+Lemma seg_split ts rv : ts14 ts -> rev_ok rv -> split_on 46 (ts ++ 45 :: rv) = [ts ++ 45 :: rv].
+Proof. intros Hts Hrv. apply split_on_no_sep. now apply seg_no_dot. Qed.
+
+(* "-" seg : form 1 *)
+Lemma pre_str_form1 ts rv : ts14 ts -> rev_ok rv -> pre_str (45 :: ts ++ 45 :: rv).
+Proof.
+  intros Hts Hrv. right. eexists. split; [reflexivity|].
+  rewrite seg_split by assumption. cbn [forallb]. now rewrite seg_pre_ident.
+Qed.
+
+(* "-0." seg : forms 2, 3 *)
+Lemma pre_str_form2 ts rv : ts14 ts -> rev_ok rv -> pre_str (45 :: 48 :: 46 :: ts ++ 45 :: rv).
+Proof.
+  intros Hts Hrv. right. eexists. split; [reflexivity|].
+  change (48 :: 46 :: ts ++ 45 :: rv) with ([48] ++ 46 :: ts ++ 45 :: rv).
+  rewrite split_on_app, seg_split by assumption.
+  replace (split_on 46 [48]) with [[48]] by reflexivity. cbn [app forallb].
+  rewrite seg_pre_ident by assumption. reflexivity.
+Qed.
+
+(* pre ".0." seg : forms 4, 5 *)
+Lemma pre_str_form4 pre ts rv :
+  pre_str pre -> pre <> [] -> ts14 ts -> rev_ok rv ->
+  pre_str (pre ++ 46 :: 48 :: 46 :: ts ++ 45 :: rv).
+Proof.
+  intros [->|(body & -> & Hb)] Hne Hts Hrv; [congruence|].
+  right. exists (body ++ 46 :: 48 :: 46 :: ts ++ 45 :: rv). split; [reflexivity|].
+  rewrite split_on_app.
+  change (48 :: 46 :: ts ++ 45 :: rv) with ([48] ++ 46 :: ts ++ 45 :: rv).
+  rewrite split_on_app, seg_split by assumption. rewrite forallb_app, Hb.
+  replace (split_on 46 [48]) with [[48]] by reflexivity. cbn [app forallb].
+  rewrite seg_pre_ident by assumption. reflexivity.
+Qed.
+
+(* pre ".0" : the base recovered from forms 4, 5 *)
+Lemma pre_str_dot0 pre : pre_str pre -> pre <> [] -> pre_str (pre ++ [46; 48]).
+Proof.
+  intros [->|(body & -> & Hb)] Hne; [congruence|].
+  right. exists (body ++ [46; 48]). split; [reflexivity|].
+  rewrite split_on_app, forallb_app, Hb. reflexivity.
+Qed.
+
+(* ---- the three shapes of PseudoVersion ----------------------------------------------------- *)
+
+Definition eff_major (major : str) : str := if is_nil major then [118; 48] else major.
+
+Lemma pv_form1 major older ts rv :
+  parse older = None ->
+  pseudo_version major older ts rv =
+  Some (eff_major major ++ [46; 48; 46; 48; 45] ++ ts ++ 45 :: rv).
+Proof.
+  intros H. unfold pseudo_version. rewrite (canonical_invalid older H). reflexivity.
+Qed.
+
+Lemma pv_form4 major older p ts rv :
+  parse older = Some p -> p_prerelease p <> [] ->
+  pseudo_version major older ts rv =
+  Some (mk (p_major p) (p_minor p) (p_patch p)
+           (p_prerelease p ++ 46 :: 48 :: 46 :: ts ++ 45 :: rv) (p_build p)).
+Proof.
+  intros H Hpre. unfold pseudo_version, prerelease.
+  rewrite (parse_canonical older p H). cbn [p_prerelease].
+  rewrite (canonical_mk older p H). unfold build. rewrite H.
+  replace (is_nil (mk (p_major p) (p_minor p) (p_patch p) (p_prerelease p) [])) with false by reflexivity.
+  replace (is_nil (p_prerelease p)) with false by (symmetry; now apply is_nil_false).
+  cbn [negb]. f_equal. unfold mk. change (B ".0.") with [46; 48; 46].
+  rewrite app_nil_r. norm_app. reflexivity.
+Qed.
+
+Lemma split_patch (X pt : str) :
+  ~ In 46 pt ->
+  last_index 46 (X ++ 46 :: pt) = Some (length X) /\
+  firstn (S (length X)) (X ++ 46 :: pt) = X ++ [46] /\
+  skipn (S (length X)) (X ++ 46 :: pt) = pt.
+Proof.
+  intros H. split; [now apply last_index_app_notin|]. split; [apply firstn_S_app | apply skipn_S_app].
+Qed.
+
+Lemma digits_no c s : forallb is_digit s = true -> is_digit c = false -> ~ In c s.
+Proof. intros. eapply notin_forallb; eauto. Qed.
+
+Lemma pv_form2 major older p ts rv :
+  parse older = Some p -> p_prerelease p = [] ->
+  exists pt', inc_decimal (p_patch p) = Some pt' /\ numeral pt' = true /\
+              compare_int (p_patch p) pt' = -1 /\
+  pseudo_version major older ts rv =
+  Some (mk (p_major p) (p_minor p) pt' (45 :: 48 :: 46 :: ts ++ 45 :: rv) (p_build p)).
+Proof.
+  intros H Hpre. destruct (parse_fields older p H) as (HM & Hm & Hp & _ & _).
+  destruct (inc_decimal_numeral _ Hp) as (pt' & Hinc & Hn' & Hcmp).
+  exists pt'. repeat split; auto.
+  unfold pseudo_version, prerelease.
+  rewrite (parse_canonical older p H). cbn [p_prerelease].
+  rewrite (canonical_mk older p H). unfold build. rewrite H, Hpre.
+  replace (is_nil (mk (p_major p) (p_minor p) (p_patch p) [] [])) with false by reflexivity.
+  cbn [is_nil negb].
+  replace (mk (p_major p) (p_minor p) (p_patch p) [] [])
+    with ((118 :: p_major p ++ 46 :: p_minor p) ++ 46 :: p_patch p)
+    by (unfold mk; rewrite !app_nil_r; norm_app; reflexivity).
+  destruct (split_patch (118 :: p_major p ++ 46 :: p_minor p) (p_patch p)) as (E1 & E2 & E3).
+  { apply digits_no; [apply (numeral_digits _ Hp) | reflexivity]. }
+  rewrite E1, E2, E3, Hinc. f_equal. unfold mk. change (B "-0.") with [45; 48; 46].
+  norm_app. reflexivity.
+Qed.
+
+(* PseudoVersion cannot reach the fault in incDecimal, whatever its arguments *)
+Theorem pseudo_version_no_panic major older ts rv : pseudo_version major older ts rv <> None.
+Proof.
+  destruct (parse older) as [p|] eqn:H.
+  - destruct (p_prerelease p) eqn:Hpre.
+    + destruct (pv_form2 major older p ts rv H Hpre) as (pt' & _ & _ & _ & ->). discriminate.
+    + rewrite (pv_form4 major older p ts rv H) by (rewrite Hpre; discriminate). discriminate.
+  - rewrite (pv_form1 major older ts rv H). discriminate.
+Qed.
